@@ -17,12 +17,17 @@
 struct OdeintShimState { long nsteps = 1; long observer_calls = 0; FILE *log = NULL; };
 extern OdeintShimState g_oshim;
 
+// uBLAS does not initialise the elements of a vector / matrix built from its sizes only (unbounded_array<double> leaves them as the
+// heap had them): the stand-in makes that deterministic by filling such storage with NaN, so that any entry the generated code reads
+// before writing it shows up in the result instead of depending on what the previous call left behind
+#include <limits>
+template <class T> inline T shim_unset() { return std::numeric_limits<T>::has_quiet_NaN ? std::numeric_limits<T>::quiet_NaN() : T(); }
 namespace boost { namespace numeric { namespace ublas {
 template <class T> class vector {
     std::vector<T> d_;
    public:
     vector() {}
-    explicit vector(size_t n) : d_(n) {}
+    explicit vector(size_t n) : d_(n, shim_unset<T>()) {}
     vector(size_t n, const T &v) : d_(n, v) {}
     size_t size() const { return d_.size(); }
     T &operator[](size_t i) { if (i >= d_.size()) { fprintf(stderr, "SHIM: ublas::vector index %zu out of range %zu\n", i, d_.size()); abort(); } return d_[i]; }
@@ -35,7 +40,7 @@ template <class T> class matrix {
     size_t r_, c_; std::vector<T> d_;
    public:
     matrix() : r_(0), c_(0) {}
-    matrix(size_t r, size_t c) : r_(r), c_(c), d_(r * c) {}
+    matrix(size_t r, size_t c) : r_(r), c_(c), d_(r * c, shim_unset<T>()) {}
     size_t size1() const { return r_; }
     size_t size2() const { return c_; }
     T &operator()(size_t i, size_t j) { if (i >= r_ || j >= c_) { fprintf(stderr, "SHIM: ublas::matrix (%zu,%zu) out of range %zux%zu\n", i, j, r_, c_); abort(); } return d_[i * c_ + j]; }
